@@ -107,7 +107,37 @@ func fileSeq(in map[string]interface{}) map[string]interface{} {
 	return map[string]interface{}{"outs": outs}
 }
 
+// {"items":[{"vars":"input-variable text","src":"program"}...], "shared":bool}: what cmd/zinc and the playground do for every
+// request — evaluate the input-variable text, then execute the program with the values it yields — several times in one process
+func varSeq(in map[string]interface{}) map[string]interface{} {
+	shared, _ := in["shared"].(bool)
+	z := exec.NewInterpreter("verif").SetExternalLibs(libs())
+	outs := []interface{}{}
+	for _, it := range in["items"].([]interface{}) {
+		item := it.(map[string]interface{})
+		zi := z
+		if !shared {
+			zi = exec.NewInterpreter("verif").SetExternalLibs(libs())
+		}
+		inputs, verr := zi.ExecuteVarInputText(item["vars"].(string))
+		if verr != nil {
+			outs = append(outs, map[string]interface{}{"kind": "varinput-error", "msg": verr.Error()})
+			continue
+		}
+		outs = append(outs, runWith(zi, item["src"].(string), inputs))
+	}
+	return map[string]interface{}{"outs": outs}
+}
+
+func runWith(z *exec.Interpreter, src string, inputs r.ElementMap) map[string]interface{} {
+	var elem r.Element
+	var err error
+	disp := hlib.CaptureStdout(func() { elem, err = z.LoadScript([]rune(src)).Execute(inputs) })
+	return outcome(elem, err, disp)
+}
+
 func register() {
+	commands["varseq"] = varSeq
 	commands["fileseq"] = fileSeq
 	// {"progs":[src...], "shared":bool}: run the programs one after the other in this process, through one
 	// interpreter object (shared) or a new one each; returns every outcome
